@@ -390,7 +390,7 @@ class C18AppendOnly(Monitor):
                     env, "started-record-changed",
                     "C18 record #%d (%s, %s) had input contexts %s / predecessors %s when it started, now %s / %s (after %s)"
                     % (i, old["id"], old.get("status"), old["ctxs"]["in"], old["prev"], new["ctxs"]["in"], new["prev"], name),
-                    task=old["id"], call=name,
+                    task=old["id"], call=name, record_status=old.get("status"),
                 )
             decided = old.get("status") in COMPLETED and (old["next"] or old.get("term"))
             if decided:
